@@ -284,7 +284,8 @@ def run_eta(u, detector, tier):
             eta = Angle(v('ce'), v('se'), 0, 2, False, True).in_unit('deg')
             coor = detector.eta_and_radpix_to_detyz(eta, v('r'), v('cy0'), v('cz0'))
             e2, r2 = detector.detyz_to_eta_and_radpix(coor, v('cy0'), v('cz0'))
-            return {'e2': e2, 'r2': r2}
+            c2, s2 = (e2 * SYMNP.pi / 180.).cs()        # evaluated on the path (may need sign decisions)
+            return {'e2': e2, 'r2': r2, 'c2': c2, 's2': s2}
     leaves, exh = ctx2.explore(body2, max_paths=32)
     for leaf in leaves:
         pre = ctx2.base() + leaf['pc']
@@ -297,8 +298,7 @@ def run_eta(u, detector, tier):
             continue
         u.paths += 1
         o = leaf['result']
-        e2 = o['e2']
-        c2, s2 = (e2 * SYMNP.pi / 180.).cs()
+        c2, s2 = o['c2'], o['s2']
         u.prove('C11/detyz_to_eta_and_radpix(eta_and_radpix_to_detyz)' + tag, pre,
                 z3.And(C.resid_goal(zc2, [c2 - v('ce'), s2 - v('se'), o['r2'] - v('r')])), replay=None,
                 detail='(eta,r) -> (dety,detz) -> (eta\',r\') returns the same radius and the same angle modulo 360 deg', sample=True)
